@@ -1,5 +1,13 @@
 package checks
 
+import (
+	"reflect"
+
+	"github.com/vimeo/dials"
+
+	"verifharness/fw"
+)
+
 // C03 fixed corpus: runs at every seed and in both tiers (shard 0), each case
 // in its own child process. It holds the regression cases for the defects
 // that were repaired in /repo (9d2cf19 deep copy through interface values,
@@ -7,7 +15,7 @@ package checks
 // hand-written topologies that put a floor under the generator.
 
 func c03N() c03NodePlan {
-	return c03NodePlan{Next: -1, M: -1, MM: -1, Leaf: -1, Skip: -1, SkipM: -1, Pair: [2]int{-1, -1}, Any: c03AnyPlan{K: "nil"}, SkipAny: c03AnyPlan{K: "nil"}}
+	return c03NodePlan{Next: -1, M: -1, MM: -1, Leaf: -1, Skip: -1, SkipM: -1, MA: -1, Pair: [2]int{-1, -1}, Any: c03AnyPlan{K: "nil"}, SkipAny: c03AnyPlan{K: "nil"}}
 }
 
 func c03PlanOf(fam string, nodes ...c03NodePlan) *c03Plan {
@@ -18,8 +26,44 @@ func c03With(n c03NodePlan, f func(*c03NodePlan)) c03NodePlan { f(&n); return n 
 
 const c03SliceSelfKey = "crash-stack-overflow:slice-reaching-itself-through-interface-values"
 
+// c03SelfSlice: a typed slice whose by-value element holds the slice itself
+// (no pointer, map or interface on the cycle).
+type c03SelfSlice struct {
+	ID   int
+	Vals []c03SelfSlice
+}
+
+const c03TypedSliceSelfKey = "crash-stack-overflow:slice-reaching-itself-through-struct-values"
+
+// c03IncludeTypedSliceSelfCase: the fixed case below is a finite cyclic
+// graph of slices that the copier does not terminate on (see FINDINGS.md,
+// F4); it stays in the corpus as long as that is so.
+const c03IncludeTypedSliceSelfCase = true
+
+func c03BuildSelfSlice() *c03SelfSlice {
+	v := &c03SelfSlice{ID: 1, Vals: make([]c03SelfSlice, 2)}
+	v.Vals[0].ID, v.Vals[1].ID = 2, 3
+	v.Vals[0].Vals = v.Vals
+	v.Vals[1].Vals = v.Vals[:1]
+	return v
+}
+
+func c03RunCustom(w *fw.Worker, i int, fc *c03FixedCase) {
+	switch fc.Custom {
+	case "typed-slice-self":
+		in, exp := c03BuildSelfSlice(), c03BuildSelfSlice()
+		out := dials.VerifDeepCopy(reflect.ValueOf(in))
+		w.Count("a_graphs", 1)
+		c03Judge(w, i, "deepcopy", reflect.ValueOf(exp), out, []c03Input{{v: reflect.ValueOf(in)}}, nil,
+			map[string]any{"fixed": fc.Name, "value": "v := &T{Vals: make([]T, 2)}; v.Vals[0].Vals = v.Vals; v.Vals[1].Vals = v.Vals[:1]"}, "custom|"+fc.Name)
+	}
+}
+
 func c03Fixed() []c03FixedCase {
 	var out []c03FixedCase
+	if c03IncludeTypedSliceSelfCase {
+		out = append(out, c03FixedCase{Name: "typed-slice-reaching-itself-through-its-by-value-element", Custom: "typed-slice-self", CrashKey: c03TypedSliceSelfKey})
+	}
 	addA := func(name string, p *c03Plan, entries ...int) {
 		if len(entries) == 0 {
 			entries = []int{0}
@@ -174,6 +218,65 @@ func c03Fixed() []c03FixedCase {
 		p.AMaps = []map[string]c03AnyPlan{{"t": {K: "time", I: 3}, "p": {K: "priv", I: 1}, "as": {K: "aslice", I: 0}}}
 		p.ASlices = [][]c03AnyPlan{{{K: "priv", I: 0}, {K: "time", I: 2}}}
 		addA("by-value-structs-with-unexported-fields-in-iface", p, 0, 2, 4)
+	}
+
+	// --- nodes held BY VALUE (struct field, array elements, slice arena) with pointers to them
+	{
+		bv := func(fam string) []*c03Plan {
+			next := func(n *c03NodePlan, t int) {
+				if fam == "A" {
+					n.Next = t
+				} else {
+					n.Kids = append(n.Kids, t)
+				}
+			}
+			// Head points at itself; All/Idx/Any refer to it afterwards
+			p1 := c03PlanOf(fam, c03N(), c03With(c03N(), func(n *c03NodePlan) { next(n, 1); n.Kids = append(n.Kids, 1); n.Skip = 1 }))
+			p1.ByVal = []int{1}
+			// Head, Arr[0..1], Arena[0..1]: self-loops and backward pointers, heap node -> Head
+			p2 := c03PlanOf(fam,
+				c03With(c03N(), func(n *c03NodePlan) { next(n, 1) }),
+				c03With(c03N(), func(n *c03NodePlan) { next(n, 1); n.Pair = [2]int{1, 0} }),
+				c03With(c03N(), func(n *c03NodePlan) { next(n, 1); n.Any = c03AnyPlan{K: "ptr", I: 2} }),
+				c03With(c03N(), func(n *c03NodePlan) { next(n, 3); n.Kids = append(n.Kids, 2, 3) }),
+				c03With(c03N(), func(n *c03NodePlan) {
+					next(n, 4)
+					n.SkipS = []int{4, 3}
+					n.Any = c03AnyPlan{K: "slice", L: []int{4, 1}}
+				}),
+				c03With(c03N(), func(n *c03NodePlan) { next(n, 4); n.Pair = [2]int{5, 5}; n.Any = c03AnyPlan{K: "priv", I: 5} }))
+			p2.ByVal = []int{1, 2, 3, 4, 5}
+			// a cycle that leaves Head through a heap node and re-enters it
+			p3 := c03PlanOf(fam,
+				c03With(c03N(), func(n *c03NodePlan) { next(n, 2); n.Any = c03AnyPlan{K: "ptr", I: 2} }),
+				c03With(c03N(), func(n *c03NodePlan) { next(n, 2) }),
+				c03With(c03N(), func(n *c03NodePlan) { next(n, 0); n.Kids = append(n.Kids, 1) }))
+			p3.ByVal = []int{2}
+			// only the arena (Head and Arr stay zero-valued but are still plan nodes)
+			p4 := c03PlanOf(fam, c03N(), c03N(), c03N(), c03N(),
+				c03With(c03N(), func(n *c03NodePlan) { next(n, 4) }),
+				c03With(c03N(), func(n *c03NodePlan) { next(n, 4); n.Skip = 5 }),
+				c03With(c03N(), func(n *c03NodePlan) { next(n, 6); n.Pair = [2]int{4, 5} }))
+			p4.ByVal = []int{1, 2, 3, 4, 5, 6}
+			return []*c03Plan{p1, p2, p3, p4}
+		}
+		names := []string{"by-value-head-self-loop-then-later-references", "by-value-head-array-arena-self-and-backward-pointers",
+			"cycle-re-entering-by-value-head-through-heap-node", "by-value-arena-elements-with-index-map"}
+		for k, p := range bv("A") {
+			out = append(out, c03FixedCase{Name: names[k], Plan: p, Entry: 5})
+		}
+		for k, p := range bv("B") {
+			out = append(out, c03FixedCase{Name: "config-holder/" + names[k], Plan: p, HolderRestacks: 2})
+		}
+	}
+	// --- array-valued maps: the values hold references
+	{
+		p := c03PlanOf("A",
+			c03With(c03N(), func(n *c03NodePlan) { n.MA = 0; n.Kids = []int{1}; n.Any = c03AnyPlan{K: "ma", I: 0}; n.Next = 1 }),
+			c03With(c03N(), func(n *c03NodePlan) { n.MA = 1; n.SkipAny = c03AnyPlan{K: "ma", I: 1} }))
+		p.MAs = []map[string][2]int{{"a": {1, 0}, "b": {1, -1}}, {"self": {1, 1}, "none": {-1, -1}}}
+		p.AMaps = []map[string]c03AnyPlan{{"ma": {K: "ma", I: 0}}}
+		addA("array-valued-maps-share-nodes-with-fields", p, 0, 1, 2, 4)
 	}
 
 	// --- plain topologies
@@ -349,6 +452,19 @@ func c03Fixed() []c03FixedCase {
 		addB("restack/non-addressable-values-reported", &c03Scenario{Defaults: bSelf, Watch: 0,
 			Sources: []c03SrcPlan{{Plan: bRich, Set: noAny, NoAddr: true}},
 			Updates: []c03SrcPlan{{Plan: b2, Set: noAny, NoAddr: true}, {Plan: bRich, Set: noAny, Ptr: true}, {Plan: tp, Set: noAny, NoAddr: true}}}, "")
+	}
+	// array-valued maps through Config and re-stacks
+	{
+		ma := c03PlanOf("B",
+			c03With(c03N(), func(n *c03NodePlan) { n.MA = 0; n.Kids = []int{1, 0}; n.SkipAny = c03AnyPlan{K: "ma", I: 0} }),
+			c03With(c03N(), func(n *c03NodePlan) { n.MA = 1; n.Any = c03AnyPlan{K: "ma", I: 0} }))
+		ma.MAs = []map[string][2]int{{"a": {1, 0}, "b": {1, -1}}, {"x": {1, 1}}}
+		addB("config/defaults-array-valued-maps", &c03Scenario{Defaults: ma, Watch: -1}, "")
+		addB("config/source-array-valued-maps", &c03Scenario{Defaults: c03TrivialPlan("B"), Watch: -1,
+			Sources: []c03SrcPlan{{Plan: ma, Set: []string{"MA", "Kids"}, NoAddr: true}}}, "")
+		addB("restack/array-valued-maps", &c03Scenario{Defaults: ma, Watch: 0,
+			Sources: []c03SrcPlan{{Plan: bRich, Set: []string{"Kids"}}},
+			Updates: []c03SrcPlan{{Plan: ma, Set: []string{"MA", "Kids"}, Ptr: true}, {Plan: ma, Set: []string{"MA"}}}}, "")
 	}
 	// two layers set Any: a slice/array/map payload replaces the lower layer's value as a whole
 	addB("config/slice-in-iface-set-by-two-layers", &c03Scenario{Defaults: c03TrivialPlan("B"), Watch: -1,
